@@ -152,9 +152,13 @@ func buildRequest(c c19case) *http.Request {
 	method := c.Method
 	req := httptest.NewRequest(method, url+q, strings.NewReader(body))
 	req.Header.Set("Content-Type", "application/json")
-	if c.Variant == "override-header" {
+	if strings.HasPrefix(c.Variant, "override-header") {
+		to := "POST"
+		if i := strings.LastIndex(c.Variant, ":"); i >= 0 {
+			to = c.Variant[i+1:]
+		}
 		for _, h := range []string{"X-HTTP-Method-Override", "X-HTTP-Method", "X-Method-Override"} {
-			req.Header.Set(h, "POST")
+			req.Header.Set(h, to)
 		}
 	}
 	return req
